@@ -986,7 +986,16 @@ impl Sim {
                 }
             }
             let mut extra_polls = 0;
+            let mut transmits_this_round = 0u64;
             loop {
+                transmits_this_round += 1;
+                if transmits_this_round > 20_000 {
+                    // poll_transmit never stops handing out datagrams at this instant (no window, pacing or state change
+                    // ends it): an unbounded loop of the code under test; the execution ends here
+                    self.fail("transmit-loop-unbounded", format!("node {node} conn {ch}: poll_transmit returned more than 20000 transmits in a row at one instant"));
+                    self.fatal = true;
+                    break;
+                }
                 if spurious > 0 && self.drv_rng.below(1000) < spurious {
                     // spurious calls: a timeout that is not due, polls that have nothing to report
                     let nc = self.nodes[node].conns.get_mut(&ch).unwrap();
